@@ -1,9 +1,13 @@
 package c15
 
 import (
+	"encoding/binary"
 	"encoding/json"
 	"fmt"
+	"hash/fnv"
 	"os"
+	"path/filepath"
+	"sort"
 	"strconv"
 	"strings"
 	"sync"
@@ -27,6 +31,8 @@ type witness struct {
 }
 
 type runner struct {
+	hmu    sync.Mutex
+	hashes map[uint64]struct{}
 	e      *env
 	c      *lib.Ctx
 	mu     sync.Mutex
@@ -51,7 +57,7 @@ func run(c *lib.Ctx) {
 		return
 	}
 	defer e.r.Close()
-	r := &runner{e: e, c: c, cands: map[string][]Case{}}
+	r := &runner{e: e, c: c, cands: map[string][]Case{}, hashes: map[uint64]struct{}{}}
 	if c.Replay != nil {
 		r.replay()
 		return
@@ -83,6 +89,7 @@ func run(c *lib.Ctx) {
 	}
 	close(work)
 	var wg sync.WaitGroup
+	tPhase := time.Now()
 	for li := 0; li < lanesPerShard; li++ {
 		wg.Add(1)
 		go func(li int) {
@@ -102,10 +109,14 @@ func run(c *lib.Ctx) {
 		}(li)
 	}
 	wg.Wait()
-	c.Checkpoint()
+	c.ObserveMax("max:phase_ms.lanes", time.Since(tPhase).Milliseconds())
+	tPhase = time.Now()
+	r.checkpoint()
 	// ---- phase 2: progress candidates, alone ----
 	r.settleCandidates()
-	c.Checkpoint()
+	c.ObserveMax("max:phase_ms.settle", time.Since(tPhase).Milliseconds())
+	tPhase = time.Now()
+	r.checkpoint()
 	// ---- phase 3: concurrent scenarios, one at a time ----
 	if len(p.concurrent) > 0 {
 		// does `socks clear` with two proxies wedge the agent on this tree? (decided and
@@ -120,12 +131,46 @@ func run(c *lib.Ctx) {
 		}
 		cs.Conc.NoClear = r.noClear
 		r.doConc(cs)
-		c.Checkpoint()
+		r.checkpoint()
 	}
 	r.settleCandidates()
+	c.ObserveMax("max:phase_ms.concurrent", time.Since(tPhase).Milliseconds())
 	c.Exhaustive(p.exhaustive)
 	for k, v := range hookHits() {
 		c.Observe("hook."+k, v)
+	}
+	c.Observe("queue.adds_without_receiver_address", addsNoAddr.Load())
+}
+
+// distinct registers a case key with the driver contract and remembers its hash, so that
+// checkpoint can leave the shard's hashes file behind even if the process is later killed by
+// a fatal error in the code under test (lib writes that file only when the worker finishes;
+// the concurrent phase regularly dies on the unchanged tree, see known findings).
+func (r *runner) distinct(key string) {
+	r.c.Distinct(key)
+	h := fnv.New64a()
+	h.Write([]byte(key))
+	r.hmu.Lock()
+	r.hashes[h.Sum64()] = struct{}{}
+	r.hmu.Unlock()
+}
+
+func (r *runner) checkpoint() {
+	r.c.Checkpoint()
+	r.hmu.Lock()
+	hs := make([]uint64, 0, len(r.hashes))
+	for h := range r.hashes {
+		hs = append(hs, h)
+	}
+	r.hmu.Unlock()
+	sort.Slice(hs, func(i, j int) bool { return hs[i] < hs[j] })
+	buf := make([]byte, 8*len(hs))
+	for i, h := range hs {
+		binary.LittleEndian.PutUint64(buf[8*i:], h)
+	}
+	tmp := filepath.Join(r.c.Out, fmt.Sprintf("hashes-%d.bin.tmp", r.c.Shard))
+	if os.WriteFile(tmp, buf, 0o644) == nil {
+		os.Rename(tmp, filepath.Join(r.c.Out, fmt.Sprintf("hashes-%d.bin", r.c.Shard)))
 	}
 }
 
@@ -149,6 +194,14 @@ func (r *runner) freshLane(name string) (*lane, error) {
 func (r *runner) retire(ln *lane) {
 	time.Sleep(20 * time.Millisecond)
 	ln.poll()
+	if adds, handed, off := ln.ag.queueMiscount(); off {
+		r.c.Observe("lane.queue_miscount_at_retire", 1)
+		_ = adds
+		_ = handed
+	} else {
+		r.c.Observe("lane.queue_balanced_at_retire", 1)
+		r.c.Observe("lane.queue_adds_accounted", adds)
+	}
 	if left := ln.leftovers(); len(left) > 0 {
 		r.c.Violation("task:unexpected", "tasks nobody asked for appeared after the last case of a lane", map[string]any{"tasks": left})
 	}
@@ -185,7 +238,7 @@ func (r *runner) doCase(ln *lane, cs Case) *lane {
 	c := r.c
 	r.e.setCur(ln.name, cs)
 	c.Eval()
-	c.Distinct(cs.key())
+	r.distinct(cs.key())
 	c.Observe("cases."+cs.Class, 1)
 	t0 := time.Now()
 	f, obs := r.exec(ln, cs, r.e.bound)
@@ -202,6 +255,8 @@ func (r *runner) doCase(ln *lane, cs Case) *lane {
 		c.Observe("pipelined.anomaly."+f.Sig, 1)
 	case strings.HasPrefix(f.Sig, "panic:") && queuePanic(f.Sig):
 		c.Observe("lane.job_queue_panic", 1) // Agent.JobQueue is property C04's structure
+	case cs.Kind != "oper" && r.queueBlamed(ln, f):
+		c.Observe("lane.anomaly_with_queue_miscount."+f.Sig, 1)
 	case f.Progress:
 		fmt.Fprintf(os.Stderr, "%s CAND %s lane=%s agent=%s class=%s took=%v key=%s\n", time.Now().Format("15:04:05.000"), f.Sig, ln.name, ln.ag.Name, cs.Class, time.Since(t0), cs.key())
 		r.mu.Lock()
@@ -238,6 +293,29 @@ func (r *runner) doCase(ln *lane, cs Case) *lane {
 		return nl
 	}
 	return ln
+}
+
+// queueBlamed: the lane's agent was handed a different number of tasks than were added to
+// its queue. Tasks vanish or repeat in the unlocked Agent.JobQueue itself (DESIGN §4 #7,
+// property C04); whatever stream damage, missing or surplus task this case shows is then not
+// evidence about the relay code.
+func (r *runner) queueBlamed(ln *lane, f *finding) bool {
+	if ln == nil || ln.ag == nil {
+		return false
+	}
+	// drain what is still queued
+	for i := 0; i < 50; i++ {
+		time.Sleep(2 * time.Millisecond)
+		if _, more := ln.poll(); !more {
+			break
+		}
+	}
+	ln.inbox = nil
+	adds, handed, off := ln.ag.queueMiscount()
+	if off && f.Obs != nil {
+		f.Obs["queue_adds"], f.Obs["tasks_handed"] = adds, handed
+	}
+	return off
 }
 
 func (r *runner) retireQuiet(ln *lane) {
@@ -373,7 +451,7 @@ func (r *runner) doConc(cs Case) {
 	c := r.c
 	r.e.setCur("conc", cs)
 	c.Eval()
-	c.Distinct(cs.key())
+	r.distinct(cs.key())
 	c.Observe("cases."+cs.Class, 1)
 	c.Observe("scenarios.conc", 1)
 	f, obs := r.e.runConc(cs.Conc, r.e.bound)
@@ -383,6 +461,12 @@ func (r *runner) doConc(cs Case) {
 	}
 	if strings.HasPrefix(f.Sig, "infra:") {
 		c.Inconclusive(f.Sig + ": " + f.What)
+		return
+	}
+	if f.Progress && !strings.HasPrefix(f.Sig, "operator:") && f.Sig != "conc:no-quiescence" {
+		// "too slow" under sixteen busy clients is no verdict; missing progress is decided by
+		// the lock-step streams. Only a wedged operator command / scenario is followed up.
+		c.Observe("conc.progress_anomaly."+f.Sig, 1)
 		return
 	}
 	if f.Progress {
@@ -400,9 +484,9 @@ func (r *runner) doConc(cs Case) {
 		c.Violation(f.Sig, f.What, witness{Case: cs, Finding: f, Observed: obs, BoundMs: r.e.bound.Milliseconds()})
 		return
 	}
-	// schedules differ from run to run: the same scenario is run up to three more times
+	// schedules differ from run to run: the same scenario is run up to two more times
 	var runs []string
-	for k := 0; k < 3; k++ {
+	for k := 0; k < 2; k++ {
 		f2, obs2 := r.e.runConc(cs.Conc, r.e.bound)
 		runs = append(runs, describe(f2, obs2))
 		if f2 != nil && f2.Sig == f.Sig {
@@ -410,7 +494,7 @@ func (r *runner) doConc(cs Case) {
 			return
 		}
 	}
-	c.Inconclusive(fmt.Sprintf("concurrent scenario seed %d: %s seen once, not again in 3 further runs (%v)", cs.Conc.Seed, f.Sig, runs))
+	c.Inconclusive(fmt.Sprintf("concurrent scenario seed %d: %s seen once, not again in 2 further runs (%v)", cs.Conc.Seed, f.Sig, runs))
 }
 
 // replay re-runs exactly one witnessed case.
@@ -424,7 +508,7 @@ func (r *runner) replay() {
 	cs := w.Case
 	r.e.setCur("replay", cs)
 	c.Eval()
-	c.Distinct(cs.key())
+	r.distinct(cs.key())
 	tries := 1
 	if cs.Kind == "conc" {
 		tries = 4
